@@ -158,6 +158,52 @@ def gen_case(r):
     return "(case (cfg %d 65001 %d 65002) (evs %s))" % (local_rid, local_hold, " ".join(evs))
 
 
+def gen_wire(r):
+    """Driver-level case: real sessions on loopback TCP (harness/daemon/rig.rs), model Rbgp/Fsm/Wire.lean."""
+    local_hold = r.pick([0, 3, 9, 30, 90, 90, 240, 65535])
+    remote_hold = r.pick([0, 3, 9, 30, 30, 90, 65535])
+    neg = min(local_hold, remote_hold)
+    local_rid = r.pick([16777217, 167772161])
+    remote_rid = 33686018
+    expected = r.pick([0, 65002, 65002])
+    roles = ["P"] if r.chance(1, 2) else (["A"] if r.chance(1, 2) else ["A", "P"])
+    evs = []
+    for role in roles:
+        evs.append("(%s connect)" % role)
+    for role in roles:
+        if r.chance(9, 10):
+            evs.append("(%s (open 65002 %d %d))" % (role, remote_hold, remote_rid))
+            if r.chance(8, 10):
+                evs.append("(%s keepalive)" % role)
+    acts = [("keepalive", 4), ("update", 3), ("update-looped", 4), ("update-attrs", 3), ("update-withdraw", 1), ("eor", 1),
+            ("route-refresh", 2), ("hold-timer", 1), ("hold-timer+keepalive", 1), ("notification", 1), ("close", 1),
+            ("admin-shutdown", 1), ("connect", 2), ("open", 1), ("badopen", 1)]
+    if neg != 0:
+        acts.append(("ka-timer", 3))
+    for _ in range(r.below(r.pick([3, 6, 10]))):
+        role = r.pick(roles) if r.chance(5, 6) else r.pick(["A", "P"])
+        k = r.weighted(acts)
+        if k == "notification":
+            evs.append("(%s (notification 6 2))" % role)
+        elif k == "open":
+            evs.append("(%s (open 65002 %d %d))" % (role, remote_hold, remote_rid))
+        elif k == "badopen":
+            evs.append("(%s (open %d %d %d))" % (role, r.pick([65002, 65003]), r.pick([1, 2, remote_hold]),
+                                                 r.pick([0, remote_rid, 3758096385])))
+        else:
+            evs.append("(%s %s)" % (role, k))
+    return "(wire (cfg %d 65001 %d %d) (evs %s))" % (local_rid, local_hold, expected, " ".join(evs))
+
+
 def gen(seed, n, tier):
     r = Rng(seed * 1000003 + 8)
-    return [gen_probe(r) if r.chance(1, 12) else gen_case(r) for _ in range(n)]
+    out = []
+    for _ in range(n):
+        k = r.below(300)
+        if k < 12:
+            out.append(gen_wire(r))       # ~0.4 s of real time each: kept rare
+        elif k < 36:
+            out.append(gen_probe(r))
+        else:
+            out.append(gen_case(r))
+    return out
